@@ -45,11 +45,21 @@ class MultiTag(BaseTag):
     def positions(self, da):
         if da is None:
             raise TypeError("MultiTag.positions cannot be None.")
+        self._check_data_array(da, "positions")
         if "positions" in self._h5group:
             del self._h5group["positions"]
         self._h5group.create_link(da, "positions")
         if self.file.auto_update_timestamps:
             self.force_updated_at()
+
+    def _check_data_array(self, da, what):
+        """
+        Positions and extents are links to DataArrays of the MultiTag's own Block.
+        """
+        if not isinstance(da, DataArray):
+            raise TypeError("MultiTag.{} must be a DataArray.".format(what))
+        if da not in self._parent.data_arrays:
+            raise RuntimeError("MultiTag.{}: DataArray not found in Block!".format(what))
 
     @property
     def extents(self):
@@ -69,6 +79,7 @@ class MultiTag(BaseTag):
         if da is None:
             del self._h5group["extents"]
         else:
+            self._check_data_array(da, "extents")
             self._h5group.create_link(da, "extents")
         if self.file.auto_update_timestamps:
             self.force_updated_at()
